@@ -1,5 +1,6 @@
 mod density;
 mod fault_sweep;
+mod momentum;
 mod record;
 mod record_sampler;
 mod replay_kernels;
